@@ -60,8 +60,9 @@ structure Structure where
   wrongOrdering : Bool
 deriving DecidableEq, Repr
 
-/-- the column-structure checks of check_dataframe. `checkOrder = some none` stands for
-    `check_order=False` (skipped), `some (some f)` for a flag. -/
+/-- the column-structure checks of check_dataframe. `checkOrder = none` stands for
+    `check_order=False` (skipped), `some f` for the flag `f` (`some none` = all columns).
+    Frames with duplicated column names are outside the model (pandas raises on `df[c].dtype`). -/
 def structureOf (act ref : List Col) (checkTypes checkExtra : Flag) (checkOrder : Option Flag) (level : Level) :
     Structure :=
   let act := act.map catAsString
